@@ -34,10 +34,14 @@ var (
 	reRAccessor = regexp.MustCompile(`^(?:decorations|Decorations)/(\w+)#`)
 	reRHelpers  = regexp.MustCompile(`\(\*decorator\.FileRestorer\)\.(applyDecorations|applySpace|addCommentField|applyLiteral)#`)
 	reRCursor   = regexp.MustCompile(`\(\*dstutil\.Cursor\)\.|^applyList#|\(\*dstutil\.application\)\.applyList#|^dstutil\.Apply#`)
+	reRGraph    = regexp.MustCompile(`\.(decorateObject|decorateScope|restoreObject|restoreScope)#|#graph:`)
 	reRDecList  = regexp.MustCompile(`\(\*dst\.Decorations\)\.(\w+)#`)
 )
 
 func replayFor(obligation string) *replaySpec {
+	if reRGraph.MatchString(obligation) {
+		return &replaySpec{"graph", "objects", "decorator", "decorator_test.go.part"}
+	}
 	if m := reRClone.FindStringSubmatch(obligation); m != nil {
 		return &replaySpec{"clone", m[1], ".", "dst_test.go.part"}
 	}
@@ -49,6 +53,9 @@ func replayFor(obligation string) *replaySpec {
 	}
 	if m := reRAccessor.FindStringSubmatch(obligation); m != nil {
 		return &replaySpec{"accessor", m[1], "dstutil", "dstutil_test.go.part"}
+	}
+	if reRGraph.MatchString(obligation) {
+		return &replaySpec{"graph", "objects", "decorator", "decorator_test.go.part"}
 	}
 	if reRCursor.MatchString(obligation) {
 		return &replaySpec{"cursor", "apply", "dstutil", "dstutil_test.go.part"}
